@@ -5,7 +5,7 @@ import (
 	"flag"
 	"fmt"
 	"os"
-	"path/filepath"
+	"strings"
 	"sync"
 
 	ngxruntime "github.com/nginx/nginx-gateway-fabric/internal/mode/static/nginx/runtime"
@@ -43,9 +43,11 @@ func Run(args []string) int {
 	nWait := fs.Int("wait", 100, "number of WaitForCorrectVersion cases")
 	nHandler := fs.Int("handler", 80, "number of handler batch sequences")
 	nStatus := fs.Int("status", 100, "number of status folding cases")
+	nRestart := fs.Int("restart", 12, "number of controller-restart sequences (judge only)")
 	maxBatches := fs.Int("maxbatches", 8, "max batches per sequence")
 	slow := fs.Int("slow", 6, "max number of cases that wait for a 500 ms pid-file poll")
 	workers := fs.Int("workers", 8, "parallel cases")
+	corpus := fs.String("corpus", "", "file with Reload cases in the model's R vocabulary, run first")
 	_ = fs.Parse(args)
 
 	base := "/verif/work/tmp"
@@ -63,9 +65,31 @@ func Run(args []string) int {
 	old := ngxruntime.VerifC12SetChildProcPathFmt(childFmt(root))
 	defer ngxruntime.VerifC12SetChildProcPathFmt(old)
 
-	r := rng.New(*seed)
+	// rng.New(seed) streams of consecutive seeds are shifted copies of each other: fork once
+	r := rng.New(*seed).Fork()
 	var jobs []job
 	pid := 1000
+	if *corpus != "" {
+		b, err := os.ReadFile(*corpus)
+		if err != nil {
+			fmt.Fprintln(os.Stderr, err)
+			return 2
+		}
+		for _, l := range strings.Split(string(b), "\n") {
+			l = strings.TrimSpace(l)
+			if !strings.HasPrefix(l, "R ") {
+				continue
+			}
+			pid++
+			p := pid
+			spec, ok := corpusReload(l, p)
+			if !ok {
+				jobs = append(jobs, func() line { return line{note: "bad corpus line: " + l, kind: "corpus"} })
+				continue
+			}
+			jobs = append(jobs, func() line { return runReload(root, p, spec) })
+		}
+	}
 	slowLeft := *slow
 	for i := 0; i < *nReload; i++ {
 		cr := r.Fork()
@@ -89,6 +113,13 @@ func Run(args []string) int {
 		p := pid
 		jobs = append(jobs, func() line { return handlerCase(cr, root, p, *maxBatches) })
 	}
+	for i := 0; i < *nRestart; i++ {
+		cr := r.Fork()
+		pid++
+		p := pid
+		canonical := i == 0
+		jobs = append(jobs, func() line { return restartCase(cr, root, p, canonical) })
+	}
 	for i := 0; i < *nStatus; i++ {
 		cr := r.Fork()
 		jobs = append(jobs, func() line { return statusCase(cr) })
@@ -99,6 +130,5 @@ func Run(args []string) int {
 	for _, l := range lines {
 		fmt.Fprintln(w, l.String())
 	}
-	_ = filepath.Join
 	return 0
 }
